@@ -304,6 +304,21 @@ def check_stepper(name, cls, mon, viol, rng):
     cands = [n_ for n_ in sorted(need) if n_ not in BASE]
     if cands:
         n_ = cands[int(rng.integers(len(cands)))]
+        # the complete problem first, in the same process (a script that is
+        # edited and run again in one session): what was accepted before must
+        # not make the incomplete variant acceptable
+        full = [make_array('dest', need), make_array('dest2', need)]
+        for pa_ in full:
+            pa_.add_property('zz_more')
+        stage, exc = stages(full, [Nothing(dest='dest', sources=None)],
+                            Integrator(dest=ec.instantiate(cls),
+                                       dest2=ec.instantiate(cls)))
+        if exc is not None:
+            mon['baseline_not_buildable'] = mon.get(
+                'baseline_not_buildable', 0) + 1
+        else:
+            mon['complete_then_incomplete'] = mon.get(
+                'complete_then_incomplete', 0) + 1
         for first_incomplete in (True, False):
             pa1 = make_array('dest', need - ({n_} if first_incomplete
                                              else set()))
